@@ -26,6 +26,7 @@ RECURSIVE LeavesOf(_)
 LeavesOf(x) == CASE x.k \in {"lit", "ref"} -> {x} [] x.k = "un" -> LeavesOf(x.x) [] OTHER -> LeavesOf(x.l) \cup LeavesOf(x.r)
 
 Sites == {"i-imm", "s-imm", "u-imm", "shamt", "c-imm", "c-lw", "db", "dw", "pack", "hi", "lo", "position", "li",
+          "c-andi", "c-li", "c-srli", "c-srai", "c-slli", "c-lui", "c-addi16sp", "c-addi4spn", "c-lwsp", "c-swsp", "c-sw",
           "reg-rd", "reg-rs1", "reg-rs2", "reg-c", "reg-mv-rd", "reg-mv-rs", "reg-li", "reg-neg", "reg-jr", "reg-beqz", "reg-seqz"}
 SiteValues(s) ==
   CASE s \in {"i-imm", "s-imm", "lo"} -> {-2048, -1, 0, 1, 5, 31, 32, 2047}
@@ -33,7 +34,13 @@ SiteValues(s) ==
     [] s = "hi" -> {0, 2047, 2048, 4096, 305419896}
     [] s = "shamt" -> {0, 1, 3, 31}
     [] s = "c-imm" -> {-32, -1, 1, 31}
-    [] s = "c-lw" -> {0, 4, 124}
+    [] s \in {"c-lw", "c-sw"} -> {0, 4, 124}
+    [] s \in {"c-andi", "c-li"} -> {-32, -3, 0, 5, 12, 31}
+    [] s \in {"c-srli", "c-srai", "c-slli"} -> {1, 5, 12, 31}
+    [] s = "c-lui" -> {1, 5, 31, 1048575}
+    [] s = "c-addi16sp" -> {-512, -16, 16, 496}
+    [] s = "c-addi4spn" -> {4, 12, 1020}
+    [] s \in {"c-lwsp", "c-swsp"} -> {0, 4, 12, 252}
     [] s = "db" -> {-128, -1, 0, 255}
     [] s \in {"dw", "pack", "li", "position"} -> {-1, 0, 1, 2047, 2048, 305419896}
     [] OTHER -> {0, 1, 2, 5, 8, 9, 15, 31}       \* register aliases
